@@ -18,21 +18,21 @@ theorem swapIfLt_spec (d : Data) (i j a b : Int) (hi : a ≤ i ∧ i < b) (hj : 
   · simp only [h, decide_false]
     exact ⟨d, rfl, RP.refl _ _ _⟩
 
-theorem shellPass_spec (cf : Cfg) (hg : 0 ≤ cf.shellGap) (a : Int) (d : Data) (b i : Int) :
+theorem shellPass_spec (cf : Cfg) (hg : 0 ≤ cf.shellGapIdx ∧ cf.shellGapIdx ≤ cf.shellGap) (a : Int) (d : Data) (b i : Int) :
     0 ≤ a → a + cf.shellGap ≤ i → b ≤ d.size →
     ∃ d', shellPass cf d b i = .ok d' ∧ RP a b d d' := by
   fun_induction shellPass cf d b i
   all_goals intro h0 hi hb
   case case1 d i hib d1 hsw ih =>
-    obtain ⟨d1', hr, hrp⟩ := swapIfLt_spec d i (i-cf.shellGap) a b ⟨by omega, hib⟩ ⟨by omega, by omega⟩ h0 hb
+    obtain ⟨d1', hr, hrp⟩ := swapIfLt_spec d i (i-cf.shellGapIdx) a b ⟨by omega, hib⟩ ⟨by omega, by omega⟩ h0 hb
     rw [hr] at hsw; cases hsw
     obtain ⟨d', hr', hrp'⟩ := ih h0 (by omega) (by rw [hrp.1]; exact hb)
     exact ⟨d', hr', hrp.trans hrp'⟩
   case case2 d i hib hsw =>
-    obtain ⟨d1', hr, hrp⟩ := swapIfLt_spec d i (i-cf.shellGap) a b ⟨by omega, hib⟩ ⟨by omega, by omega⟩ h0 hb
+    obtain ⟨d1', hr, hrp⟩ := swapIfLt_spec d i (i-cf.shellGapIdx) a b ⟨by omega, hib⟩ ⟨by omega, by omega⟩ h0 hb
     rw [hr] at hsw; cases hsw
   case case3 d i hib hsw =>
-    obtain ⟨d1', hr, hrp⟩ := swapIfLt_spec d i (i-cf.shellGap) a b ⟨by omega, hib⟩ ⟨by omega, by omega⟩ h0 hb
+    obtain ⟨d1', hr, hrp⟩ := swapIfLt_spec d i (i-cf.shellGapIdx) a b ⟨by omega, hib⟩ ⟨by omega, by omega⟩ h0 hb
     rw [hr] at hsw; cases hsw
   case case4 d i hib => exact ⟨d, rfl, RP.refl _ _ _⟩
 
@@ -69,7 +69,8 @@ theorem SortedOn.congr {a b : Int} {d d' : Data} (h : SortedOn a b d) (he : ∀ 
   intro p q hp hpq hq
   rw [he p hp (by omega), he q (by omega) hq]; exact h p q hp hpq hq
 
-theorem quickSort_spec (cf : Cfg) (hk : cf.HeapOK) (hbo : cf.BuildOK) (hmin : cf.qsMin ≤ 1) (hg : 0 ≤ cf.shellGap)
+theorem quickSort_spec (cf : Cfg) (hk : cf.HeapOK) (hbo : cf.BuildOK) (hmin : cf.qsMin ≤ 1)
+    (hg : 0 ≤ cf.shellGapIdx ∧ cf.shellGapIdx ≤ cf.shellGap)
     (hpiv : ∀ (d : Data) (lo hi : Int), 0 ≤ lo → hi - lo > cf.qsSmall → hi ≤ d.size → PivotOK cf d lo hi) :
     ∀ (f : Nat) (d : Data) (a b : Int) (md : Nat), 0 ≤ a → a ≤ b → b ≤ d.size → md < f →
       ∃ d', quickSort cf f d a b md = .ok d' ∧ RP a b d d' ∧ SortedOn a b d' := by
@@ -172,7 +173,8 @@ theorem sortedOn_toList {d : Data} (h : SortedOn 0 d.size d) : d.toList.Pairwise
   simpa using this
 
 /-- `Sort` sorts, given the partition contract of `doPivot` -/
-theorem sort_spec (cf : Cfg) (hk : cf.HeapOK) (hbo : cf.BuildOK) (hmin : cf.qsMin ≤ 1) (hg : 0 ≤ cf.shellGap)
+theorem sort_spec (cf : Cfg) (hk : cf.HeapOK) (hbo : cf.BuildOK) (hmin : cf.qsMin ≤ 1)
+    (hg : 0 ≤ cf.shellGapIdx ∧ cf.shellGapIdx ≤ cf.shellGap)
     (hs : 1 ≤ cf.mdShift)
     (hpiv : ∀ (d : Data) (lo hi : Int), 0 ≤ lo → hi - lo > cf.qsSmall → hi ≤ d.size → PivotOK cf d lo hi)
     (d : Data) : ∃ d', sort cf d = .ok d' ∧ d'.toList.Pairwise (· ≤ ·) ∧ d'.toList.Perm d.toList := by
